@@ -117,6 +117,19 @@ def reaches(cfg):
 
 def run_cfg(args):
     idx, cfg, scratch = args
+    if cfg.get("kind") == "sequence":
+        # in-process sequences of programmatic detect/build calls: the exit status and the files each
+        # step leaves must be those of the same invocation alone in a fresh process (harness shared with C06)
+        import c06
+        import shutil
+        import vbcommon
+        c06.VBSEQ_PATH = os.path.join(os.path.dirname(vbcommon.VB), "vbseq")
+        root = os.path.join(scratch, f"c05seq-{os.getpid()}-{idx}")
+        try:
+            v, o = c06.judge_sequence(root, cfg, compare="outputs")
+            return [(sig, f"{what} [config {json.dumps(cfg)}]") for sig, what in v], o
+        finally:
+            shutil.rmtree(root, ignore_errors=True)
     w = World(os.path.join(scratch, f"w{idx % 64}-{os.getpid()}-{idx}"))
     try:
         return judge(w, cfg)
@@ -324,7 +337,10 @@ def run(ctx):
             print("DIFFERENCE:", what)
             res.violation(sig, what, {"config": cfg})
         return res.done()
-    cfgs = list(all_cfgs(ctx.thorough)) + list(planpath_cfgs())
+    import itertools
+    symbols = [(wi, var, ph) for wi in range(2) for var in (1, 2, 3) for ph in ("detect", "build")]
+    seqs = [{"kind": "sequence", "symbols": [list(x) for x in seq]} for n in ((2, 3) if ctx.thorough else (2,)) for seq in itertools.product(symbols, repeat=n)]
+    cfgs = list(all_cfgs(ctx.thorough)) + list(planpath_cfgs()) + seqs
     # ownership of nondeterminism: the first configurations run twice must give identical outcomes
     probe = [run_cfg((i, c, ctx.scratch)) for i, c in enumerate(cfgs[:5])]
     probe2 = [run_cfg((i, c, ctx.scratch)) for i, c in enumerate(cfgs[:5])]
@@ -335,7 +351,7 @@ def run(ctx):
     with ProcessPoolExecutor(max_workers=16) as ex:
         for (v, o), cfg in zip(ex.map(run_cfg, [(i, c, ctx.scratch) for i, c in enumerate(cfgs)], chunksize=64), cfgs):
             outcomes.add(o)
-            if reaches(cfg) or deviations(cfg) == 1:
+            if cfg.get("kind") == "sequence" or reaches(cfg) or deviations(cfg) == 1:
                 nontrivial.add(json.dumps(cfg, sort_keys=True))
             for sig, what in v:
                 res.violation(sig, what, {"config": cfg})
@@ -343,7 +359,7 @@ def run(ctx):
     res.cov("distinct_nontrivial", len(nontrivial))
     res.cov("distinct_outcomes", sorted(outcomes))
     res.cov("determinism_replays", 5)
-    res.cov("rule", "configurations = executable name (phase, other, path/phase, phase.bak) x argument count 0..4 x buildpack.toml (valid, api 0.9/0.11/1/missing, malformed, file missing, unknown key) x CNB_BUILDPACK_DIR x each mandatory CNB_TARGET_* variable x ARCH_VARIANT x behaviour (4 detect; 16 pass results x SBOM sets + error + layer error for build) x stale outputs; plus, for valid detect invocations, the plan path as a bare file name, ./name and a path in a missing directory x 4 behaviours; each run as a real process; non-trivial = configurations that reach the phase or deviate from a valid invocation in exactly one dimension")
+    res.cov("rule", "configurations = executable name (phase, other, path/phase, phase.bak) x argument count 0..4 x buildpack.toml (valid, api 0.9/0.11/1/missing, malformed, file missing, unknown key) x CNB_BUILDPACK_DIR x each mandatory CNB_TARGET_* variable x ARCH_VARIANT x behaviour (4 detect; 16 pass results x SBOM sets + error + layer error for build) x stale outputs; plus, for valid detect invocations, the plan path as a bare file name, ./name and a path in a missing directory x 4 behaviours; each run as a real process; plus every in-process sequence of 2 (thorough 3) programmatic detect/build calls over 12 symbols, exit status and written files of each step compared with the same call alone in a fresh process; non-trivial = configurations that reach the phase or deviate from a valid invocation in exactly one dimension")
     res.cov("bound", {"deviations_from_valid_invocation": "<=3 all behaviours" if not ctx.thorough else "full product for detect and for build up to 3 deviations; beyond that build behaviours {first,last}"})
     res.cov("exhaustive", True)
     res.sample(cfgs[0])
